@@ -97,7 +97,7 @@ func c20(r *Report) propMeta {
 	r.ArgHas("assigned-time-from-last-submission", su2, "signaller.calculateAssignedTime", 2, 1, "field:ValidatorPrice.Timestamp")
 	r.ArgHas("assigned-time-interval", su2, "signaller.calculateAssignedTime", 1, 1, "field:FeedWithDeviation.Interval")
 	id := "grogu/signaller.isDeviated"
-	r.Exists("deviation-threshold-inclusive", id, RetValEff(0, "^binop:<=", "param:deviationBasisPoint"), 1)
+	r.RetPred("deviation-threshold-inclusive", id, 0, Cond{Op: "LSS", A: []string{"^binop:/", "call:math.Abs", "param:oldPrice"}, B: []string{"^param:deviationBasisPoint"}, Want: false, Desc: "not (deviation < deviationBasisPoint)"}, 1)
 	nu := sg + "isNonUrgentUnavailablePrices"
 	r.Gate("unavailable-held-until-near-deadline", nu, RetConst(0, "true"), []Cond{
 		{Op: "EQL", A: []string{"field:SignalPrice.Status"}, B: []string{w.ConstAtom(ft, "SIGNAL_PRICE_STATUS_UNAVAILABLE")}, Want: true, Desc: "status == UNAVAILABLE"},
